@@ -197,6 +197,8 @@ def run(pid, tier, replay=None):
         # sessions and module graphs once more under a collection at every allocation: recompiling into a live module,
         # module objects, import fibers and the session's definitions must all survive it
         binaries.append(("enum+gc", binary))
+        # ... and with laythe_core's gc_stress feature: also a collection at every stack check of every call
+        binaries.append(("enum+stress", vlib.build_harness(gc_stress=True)))
     kf = {f["id"]: f for f in vlib.known_findings().get("findings", []) if pid in f.get("properties", [])}
     if replay:
         rp = json.load(open(replay))["replay"]
